@@ -1,7 +1,7 @@
 #!/bin/bash
 # Runs every seeded change under /verif/seeded against the check of its property (quick tier) and records the outcome
 cd /verif
-for d in seeded/*/; do
+for d in seeded/*${1:-}/; do
   id=$(basename $d); prop=${id%%-*}
   res=$(./tools_mutant.sh /verif/$d/patch.diff $prop quick 2>&1 | tail -1)
   rc=$(echo "$res" | sed -n 's/.*rc=\([0-9]*\).*/\1/p')
